@@ -20,7 +20,7 @@ import (
 func main() {
 	Main(map[string]*Suite{
 		"C08":    {Gen: genCore, Run: runCore},
-		"C08sys": {Gen: genSys, Run: runSys},
+		"C08sys": {Gen: genSys, Run: runSys}, "C09sys": {Gen: genSysSmall, Run: runSys},
 	})
 }
 
